@@ -378,6 +378,12 @@ func (fr *Frame) assumeFieldInv(st *State, x *ssa.UnOp, c cell) {
 	if sh.pureFuncField[c.key] {
 		fr.u.pureFnTerms[fr.regs[x].S] = c.key
 	}
+	if g, ok := x.X.(*ssa.Global); ok && g.Pkg != nil {
+		if k := "G:" + g.Pkg.Pkg.Path() + "." + g.Name(); sh.pureFuncField[k] {
+			fr.u.pureFnTerms[fr.regs[x].S] = k
+			fr.u.assume(True, Neq(fr.regs[x], NilLoc)) // initialised by the package and only replaced by tests
+		}
+	}
 	// element of a slice loaded from an elems_nonnil field
 	if ia, ok := x.X.(*ssa.IndexAddr); ok {
 		if ld, ok := ia.X.(*ssa.UnOp); ok && ld.Op == token.MUL {
